@@ -224,12 +224,52 @@ def doEnc (old : Bool) (flag gs : String) : String :=
     | some bs => "ok " ++ hexB bs
     | none => "err"
 
+/-! several values through one Encoder / Decoder: `encs <p|n> <roots>|<objs>` with the roots separated by `&`;
+`decs <host> <k> <hex>` reads k values -/
+
+def parseMGraph (s : String) : Option MGraph :=
+  match s.splitOn "|" with
+  | [r, os] => do
+    let roots ← (r.splitOn "&").mapM parseVal
+    let heap ← if os.isEmpty then some [] else (os.splitOn ";").mapM parseObj
+    pure ⟨heap, roots⟩
+  | _ => none
+
+def showMGraph (g : MGraph) : String :=
+  "&".intercalate (g.roots.map showVal) ++ "|" ++ ";".intercalate (g.heap.map showObj)
+
+def canonMany (heap : Heap) (roots : List Val) : MGraph :=
+  let h := heap.toArray
+  let (rs, st) := (roots.mapM (canonVal h)).run { map := Array.replicate h.size none }
+  ⟨st.out.toList, rs⟩
+
+def doEncs (flag gs : String) : String :=
+  match parseMGraph gs with
+  | none => "bad-input"
+  | some g =>
+    if !(g.heap.keysOK && g.heap.all Obj.sizeOK && g.roots.all Val.sizeOK) then "outside-hypotheses-of-C07_roundtrip" else
+    match encodeStream { pickler := flag == "p" } g with
+    | some bs => "ok " ++ hexB bs
+    | none => "err"
+
+def doDecs (flag k hx : String) : String :=
+  match unhexB hx, decCfg false flag false, k.toNat? with
+  | some bs, some cfg, some n =>
+    match decodeStream cfg n {} bs [] with
+    | .ok vals h => "ok " ++ showMGraph (canonMany h vals)
+    | .err i _ => s!"err {i}"
+    | .nilNoErr i => s!"nil {i}"
+    | .outOfFuel => "hang"
+  | _, _, _ => "bad-input"
+
 def step (line : String) : String :=
   match line.splitOn " " with
   | ["enc", f, g] => doEnc false f g
   | ["encold", f, g] => doEnc true f g
   | ["dec", f, h] => doDec false f h
   | ["decold", f, h] => doDec true f h
+  | ["encs", f, g] => doEncs f g
+  | ["decs", f, k, h] => doDecs f k h
   | _ => "bad-op"
 
 def main : IO Unit := mainLoop step
